@@ -181,10 +181,11 @@ Section WithExec.
   Definition genesis_header (g : config) : header :=        (* manager.go:189-198 *)
     {| h_height := g_initial g; h_time := g_time g; h_chain := g_chain g; h_last := None;
        h_data := empty_commitment; h_app := g_initroot g; h_proposer := g_proposer g |}.
-  (* manager.go:226-235 with signer = nil, as the store returns it: SignedHeader.ToProto
-     (types/serialization.go:63-69) drops the signer address when there is no public key *)
+  (* manager.go:226-235 with signer = nil: unsigned, no public key, signer address = the genesis
+     proposer address (since c84fe2d a signer address without a public key survives
+     SignedHeader.ToProto/FromProto, types/serialization.go, so the store returns it as written) *)
   Definition genesis_block (g : config) : block :=
-    ({| sh_hdr := genesis_header g; sh_sig := SigEmpty; sh_signer := {| sg_pub := None; sg_addr := AddrEmpty |} |},
+    ({| sh_hdr := genesis_header g; sh_sig := SigEmpty; sh_signer := {| sg_pub := None; sg_addr := g_proposer g |} |},
      {| d_meta := None; d_txs := [] |}).
 
   Definition boot_writes (g : config) (m : img) : option (cstate * list wr) :=
